@@ -282,9 +282,11 @@ func (r *StreamRun) execS(st Step) {
 			time.Sleep(100 * time.Microsecond)
 		}
 	case "SrvAck", "HandlerStart":
-		if st.A == "HandlerStart" {
-			r.await("HandlerStart", func() bool { return r.evc(func(e *Ev) bool { return e.Ev == "h.start" && e.S == s }) > 0 })
-		} else {
+		// the server acknowledges the open and then starts the handler, both without further stimulus: once the handler has
+		// started the ack frame is on the wire (a fixed sleep was not enough under load: the next ReaderFrame step then found
+		// nothing in flight and the rest of the schedule ran on a stream that was not established)
+		r.await(st.A, func() bool { return r.evc(func(e *Ev) bool { return e.Ev == "h.start" && e.S == s }) > 0 })
+		if st.A == "SrvAck" {
 			time.Sleep(200 * time.Microsecond)
 		}
 	case "Push":
